@@ -16,6 +16,7 @@ M = [
  ("C05-m8", "C05", JD, "keys = list(self._jdd.keys())", "keys = sorted(self._jdd.keys())", "keys sorted but weights not (weights attached to the wrong keys)"),
  ("C05-m9", "C05", JD, "        ntops = list(map(sum, zip(*jds)))\n        for i, ntop in enumerate(ntops):\n", "        for i in range(len(self._motif_sizes)):\n            ntop = sum(jd[i] for jd in jds) + i\n", "column total off by the column index"),
  ("C05-m10", "C05", JD, "                    t = list(jds[j])\n", "                    t = list(jds[j - 1])\n", "patched entry copied from the neighbouring vertex"),
+ ("C05-m11", "C05", JD, "        ntops = list(map(sum, zip(*jds)))\n", "        if not hasattr(self, '_nt'):\n            self._nt = list(map(sum, zip(*jds)))\n        ntops = self._nt\n", "column totals cached on the loader: stale on a second call"),
  ("C06-m1", "C06", LD+"joint_degree_marginal.py", "ks.append([k for k in range(kmin, kmax)])", "ks.append([k for k in range(kmin, kmax + 1)])", "direct mode uses the closed range"),
  ("C06-m2", "C06", LD+"joint_degree_marginal.py", "            self._jdd[key] = self.evaluate_prob_of_joint_degree(key)\n        self.normalise_jdd()", "            self._jdd[key] = self.evaluate_prob_of_joint_degree(key)", "normalisation dropped"),
  ("C06-m3", "C06", LD+"joint_degree_marginal.py", "prod *= self._arr_fp[i](deg)", "prod *= self._arr_fp[0](deg)", "every dimension evaluated with the first marginal"),
